@@ -26,12 +26,42 @@ def _sequence():
     return _CACHE["seq"]
 
 
+def _memoise_optimiser() -> None:
+    """The bandwidth optimiser takes ~1.5 s per call; its answer only depends on the matrix.  A
+    memoising wrapper (harness process only, the real function still produces every answer)."""
+    import emu_mps.optimatrix as optimat
+
+    if getattr(optimat.minimize_bandwidth, "_verif_memo", False):
+        return
+    real = optimat.minimize_bandwidth
+    memo: dict = {}
+
+    def wrapped(mat, *a, **k):
+        key = (tuple(mat.shape), mat.detach().cpu().numpy().tobytes())
+        if key not in memo:
+            memo[key] = real(mat, *a, **k)
+        return memo[key].clone()
+
+    wrapped._verif_memo = True  # type: ignore[attr-defined]
+    optimat.minimize_bandwidth = wrapped
+
+
 def _custom_observable_class():
     if "custom" not in _CACHE:
         from pulser.backend import Observable
 
         class VerifCustomObservable(Observable):
             """A user-defined observable the package cannot know how to un-permute."""
+
+            def __init__(self) -> None:
+                import inspect
+
+                from pulser.backend import observable as _o
+
+                kw = {}
+                if "default_aggregation_method" in inspect.signature(_o.Observable.__init__).parameters:
+                    kw["default_aggregation_method"] = _o.AggregationMethod["SKIP"]
+                super().__init__(**kw)
 
             @property
             def _base_tag(self) -> str:
@@ -139,6 +169,7 @@ def run_cfg(row: dict) -> dict:
         from emu_mps.mps_backend_impl import create_impl
 
         torch.manual_seed(0)
+        _memoise_optimiser()
         pd = PulserData(sequence=seq, config=cfg, dt=cfg.dt)
         sd = next(iter(pd.get_sequences()))
         impl = create_impl(sd, cfg)
